@@ -32,6 +32,11 @@ def trace_nodes(ctx: Ctx, f: FuncInfo) -> List[Tuple[Node, str]]:
             why = "create_task"
         if why is None and n.user:
             why = "user code runs"
+        if why is None and n.op == "call" and n.callee is not None and n.callee.kind != "pkg" and isinstance(n.ast, ast.Call):
+            for a in list(n.ast.args) + [k.value for k in n.ast.keywords]:
+                a = a.value if isinstance(a, ast.Starred) else a
+                if isinstance(a, ast.Name) and a.id in f.param_names() and expr_role(ctx, f, a) == "ITER":
+                    why = "the argument iterable is handed to " + n.callee.name
         if why is not None:
             out.append((n, why))
     return out
